@@ -22,7 +22,23 @@ ENGINES = [
     {"name": "E4-thread-scheduler", "path": "vf/sched.py",
      "kind_free_text": "cooperative scheduler for real threading.Thread objects via sys.settrace line events and "
                        "per-thread batons; every line of bits/p2p.py is a scheduling point"},
+    {"name": "E4c-concurrent-calls", "path": "vf/concur.py (+ vf/sched.py line_visible)",
+     "kind_free_text": "two or three ordinary single-case checks run as threads under E4, every interleaving with <= 1 preemption "
+                       "(deep pass: <= 2, scheduling points reduced to lines that can touch shared state), cold and after warm-up "
+                       "calls, followed by sequential follow-up calls; each execution in a forked child"},
+    {"name": "E5-sequence-explorer", "path": "vf/seqexplore.py (explore, long_history)",
+     "kind_free_text": "every operation sequence up to depth 2-4 over a small alphabet (incl. environment operations) on a process "
+                       "image whose history is exactly that sequence (fork tree); one long history over >= 1000 operations "
+                       "(forward, forward, reverse, echo)"},
+    {"name": "E6-interrupted-calls", "path": "vf/seqexplore.py (interrupted)",
+     "kind_free_text": "an earlier call is cut short by an asynchronous exception at every line event (bounded visits per line), cold "
+                       "and after another completed call, then the alphabet's operations are judged"},
+    {"name": "E7-history-positioned-concurrency", "path": "vf/seqexplore.py (rare_points) + vf/runner.py (run_histconcur_job)",
+     "kind_free_text": "a long homogeneous history is scanned for positions whose call executes library lines no earlier call "
+                       "executed; from the process image just before each such position two concurrent calls are explored"},
 ]
+PART_ENGINE = {"seq": "E5-sequence-explorer", "longhist": "E5-sequence-explorer", "interrupted": "E6-interrupted-calls",
+               "histconcur": "E7-history-positioned-concurrency", "concurcase": "E4c-concurrent-calls", "concur": "E4c-concurrent-calls"}
 
 
 def main():
@@ -51,20 +67,32 @@ def main():
             continue
         for e in getattr(mod, "ENGINES", ["E1-scope-enumerator"]):
             served[e].append(pid)
+        try:
+            parts = {j.get("part") for j in mod.jobs("quick", 0)}
+        except Exception:
+            parts = set()
+        extra_engines = sorted({PART_ENGINE[p_] for p_ in parts if p_ in PART_ENGINE})
+        for e in extra_engines:
+            served[e].append(pid)
+        SHORT = {"E4c-concurrent-calls": "all interleavings (<= 1-2 preemptions) of two or three concurrent calls",
+                 "E5-sequence-explorer": "all operation sequences up to depth 2-4 incl. environment operations + one long history",
+                 "E6-interrupted-calls": "an earlier call interrupted at every line, then every operation",
+                 "E7-history-positioned-concurrency": "two concurrent calls explored from rare positions of a 1300-call history"}
+        tech_extra = ("; additionally, each against the same reference comparison: " + "; ".join(SHORT[e] for e in extra_engines)) if extra_engines else ""
         checks.append({
             "property_id": pid,
             "quick_cmd": f"./check {pid} --tier quick",
             "thorough_cmd": f"./check {pid} --tier thorough",
             "evidence_file": f"/verif/evidence/{pid}.json",
             "replay_cmd_template": f"./check {pid} --replay {{path}}",
-            "engine": "+".join(getattr(mod, "ENGINES", ["E1-scope-enumerator"])),
+            "engine": "+".join(list(getattr(mod, "ENGINES", ["E1-scope-enumerator"])) + extra_engines),
             "level_claimed": {
                 "category": mod.LEVEL,
                 "text": mod.LEVEL_TEXT,
                 "design_ref": f"DESIGN.md section 4 ({pid})",
             },
             "level_note": mod.LEVEL_NOTE,
-            "technique": mod.TECHNIQUE,
+            "technique": mod.TECHNIQUE + tech_extra,
         })
     engines = []
     for e in ENGINES:
